@@ -41,7 +41,7 @@ def run(chk, scratch):
     rt, _ = common.record(vh, scratch, "c17", "realtime.ndjson", chk.seed, chk.tier, mode="realtime", n=rounds, timeout=3000)
     # 4. take-over, then hold: the lock an overriding contender won from a dead holder is held; four periods later another overriding contender must be refused
     th = os.path.join(scratch, "c17-takeover.ndjson")
-    p = vlib.run_vh(vh, ["c17", "takeoverhold", "--out", th, "--dir", scratch, "--seed", chk.seed, "--n", 12 if thorough else 3], timeout=600)
+    p = vlib.run_vh(vh, ["c17", "takeoverhold", "--out", th, "--dir", scratch, "--seed", chk.seed, "--n", 12 if thorough else 4], timeout=600)
     if p.returncode != 0:
         raise vlib.Inconclusive("c17 takeoverhold driver failed: " + (p.stderr or "")[-1500:])
     trace = os.path.join(scratch, "c17-trace.ndjson")
